@@ -7,12 +7,14 @@ def run(prog, rep, tier):
     rep.clause = ("Q1: no `mutable` member / const_cast of this in any class derived from op/pred/stringer/builtin (257 classes), no library function "
                   "writes a namespace-scope or static-storage variable (one exemption row with reason), no function-local static whose initialiser "
                   "depends on a parameter; Q3: parent/root caches are only searched and inserted into; Q4: sequence storage obtained through "
-                  "value_seq::get_seq() is mutated only via a by-value unique_ptr operand and the sharing constructor only takes such storage; "
+                  "value_seq::get_seq() is mutated only via a by-value unique_ptr operand and the sharing constructor only takes such storage; Q4c: every "
+                  "other initialisation of that storage field (copy constructor = clone) is a fresh allocation on every arm, never an alias; "
                   "W1: op::next/state_con/state_des, pred::result, stringer::next are const and zw_query holds no scon/stack.")
     rep.not_decided = ("equality of result sequences across interleaved, partially consumed or abandoned executions (a history property; the clauses "
                        "above are its structural preconditions).")
     apply(rep, "Q1", "no hidden mutable process-level state", r_pure.q1(prog), 4)
     apply(rep, "Q3", "caches are insert-only", r_pure.q3(prog), 1)
     apply(rep, "Q4", "shared sequence storage mutated only through an owned operand", r_pure.q4(prog), 3)
+    apply(rep, "Q4c", "copies never alias storage that `add` mutates in place", r_pure.q4c(prog), 3)
     apply(rep, "W1", "const protocol (type-level)", r_pure.w1(prog), 8)
     maybe_mutants("C12", rep, tier)
